@@ -2,7 +2,9 @@
   C17 — the collector's registry is exactly the set of live managed objects.
 
   Property theorems only; helper lemmas are in CelloProofs/Lemmas/RH.lean, RHIns.lean (shared robin-hood core), RHErase.lean
-  (backward shift), RHSweep.lean (sweep compaction), Registry{Ideal,Lookup,Ins,Rehash,Mark,Ops,History}.lean.
+  (backward shift), RHSweep.lean (sweep compaction), Registry{Ideal,Lookup,Ins,Rehash,Mark,Ops,History,Kills,KillsHist}.lean,
+  RegistryOrder.lean (the nested finalisation is a depth-first traversal: order independence of the ledger, `reachK_wf` by
+  induction), RegistrySpec.lean (ledger of the property text, `dealloc` histories).
   Model: Cello/Registry.lean (mirrors src/GC.c as it is now).  Source-derived parameters: CelloGen/Reg.lean, bundled as
   `gcCfg` (prime table, load factor, `size+1`, hash shift, tie rule of GC_Set_Ptr, threshold formula); `gcProbe` is GC_Probe
   translated expression by expression.  Every theorem below that mentions `gcCfg` or `CelloGen.Reg` is re-checked
